@@ -80,6 +80,12 @@ class KexDH:  # pragma: nocover
     # contains the host key, among other things.  Function returns the host
     # key blob (from which the fingerprint can be calculated).
     def recv_reply(self, s: 'SSH_Socket', parse_host_key_size: bool = True) -> Optional[bytes]:
+        try:
+            return self.__recv_reply(s, parse_host_key_size)
+        except (struct.error, ValueError, IndexError) as e:  # Truncated or otherwise malformed reply (UnicodeDecodeError is a ValueError).
+            raise KexDHException("Error while parsing the key exchange reply: %s" % str(e)) from None
+
+    def __recv_reply(self, s: 'SSH_Socket', parse_host_key_size: bool = True) -> Optional[bytes]:
         # Reset the CA info, in case it was set from a prior invocation.
         self.__hostkey_type = ''
         self.__hostkey_e = 0  # pylint: disable=unused-private-member
